@@ -360,3 +360,5 @@ import checks_converge  # noqa: E402,F401
 import checks_upstreams  # noqa: E402,F401
 import checks_fd  # noqa: E402,F401
 import checks_rebalance  # noqa: E402,F401
+import checks_auth  # noqa: E402,F401
+import checks_proxy  # noqa: E402,F401
